@@ -431,6 +431,9 @@ nofold:
 		if b.IsConst() && b.c.Sign() == 0 {
 			return a
 		}
+		if b.op == "bvsub" && b.args[0] == a {
+			return b.args[1] // a - (a - x) = x
+		}
 		if a == b {
 			return c.Const(a.sort, big.NewInt(0))
 		}
